@@ -55,6 +55,35 @@ func newStdSvc(v stdVariant) (*stdSvc, error) {
 	if name == "" {
 		name = stdNames
 	}
+	// one port beyond 32767 (what a NAT or an ephemeral source port looks like)
+	// for a third socket per user agent and for next hops: the first candidate
+	// free on all addresses that will use it (another process may hold a
+	// wildcard socket on a candidate)
+	for _, cand := range []int{51733, 40123, 49152, 60123, 65535, 33333, 47011, 58999} {
+		free := true
+		for _, d := range []int{10, 11, 12, 13, 20, 21, 22, 24, 25, 60, 99} {
+			if c, err := net.ListenUDP("udp", &net.UDPAddr{IP: net.ParseIP(ip(d)), Port: cand}); err != nil {
+				free = false
+			} else {
+				c.Close()
+			}
+			if l, err := net.Listen("tcp", fmt.Sprintf("%s:%d", ip(d), cand)); err != nil {
+				free = false
+			} else {
+				l.Close()
+			}
+			if !free {
+				break
+			}
+		}
+		if free {
+			s.high = cand
+			break
+		}
+	}
+	if s.high == 0 {
+		return nil, fmt.Errorf("no free port beyond 32767 on the harness addresses")
+	}
 	cfg := labCfg{
 		Name:          name,
 		Keep:          v.Keep,
@@ -75,6 +104,8 @@ func newStdSvc(v stdVariant) (*stdSvc, error) {
 			{Dests: []string{"*.wtls.test"}, Protocol: "TLS", NextHop: ip(24) + ":5070"},
 			// a literal listed after a wildcard that covers it: the literal must still win
 			{Dests: []string{"lit.wudp.test"}, Protocol: "udp", NextHop: ip(22) + ":5070"},
+			// a next hop on a port beyond 32767
+			{Dests: []string{"static-high.test"}, Protocol: "udp", NextHop: fmt.Sprintf("%s:%d", ip(24), s.high)},
 			// a wildcard meant for IPv4 To hosts
 			{Dests: []string{"10.20.*"}, Protocol: "udp", NextHop: ip(24) + ":5060"},
 		},
@@ -158,37 +189,12 @@ func newStdSvc(v stdVariant) (*stdSvc, error) {
 		add(in.hub.tcpEP(fmt.Sprintf("ua%d-tcp", i), ip(10+i), 5060))
 		add(in.hub.tcpEP(fmt.Sprintf("ua%d'-tcp", i), ip(10+i), 6010))
 	}
-	// a third socket per user agent at one port beyond 32767 (what a NAT or an
-	// ephemeral source port looks like): the first candidate free on all four
-	// addresses (another process may hold a wildcard socket on a candidate)
-	for _, cand := range []int{51733, 40123, 49152, 60123, 65535, 33333, 47011, 58999} {
-		free := true
-		for i := 0; i < 4 && free; i++ {
-			if c, err := net.ListenUDP("udp", &net.UDPAddr{IP: net.ParseIP(ip(10 + i)), Port: cand}); err != nil {
-				free = false
-			} else {
-				c.Close()
-			}
-			if l, err := net.Listen("tcp", fmt.Sprintf("%s:%d", ip(10+i), cand)); err != nil {
-				free = false
-			} else {
-				l.Close()
-			}
-		}
-		if free {
-			s.high = cand
-			break
-		}
-	}
-	if s.high == 0 {
-		return nil, fmt.Errorf("no free port beyond 32767 on the user agent addresses")
-	}
 	for i := 0; i < 4; i++ {
 		s.uas3 = append(s.uas3, add(in.hub.udpEP(fmt.Sprintf("ua%d^", i), ip(10+i), s.high)))
 		add(in.hub.tcpEP(fmt.Sprintf("ua%d^-tcp", i), ip(10+i), s.high))
 	}
 	for _, d := range []int{20, 21, 22, 24, 25, 60, 99} {
-		for _, p := range []int{5060, 5070, 5061} {
+		for _, p := range []int{5060, 5070, 5061, s.high} {
 			add(in.hub.udpEP(fmt.Sprintf("hop%d-udp", d), ip(d), p))
 			add(in.hub.tcpEP(fmt.Sprintf("hop%d-tcp", d), ip(d), p))
 		}
